@@ -256,7 +256,7 @@ def statusModule (st : St) (name : Name) : St × Resp :=
 /-! ### Faces module (fw/mgmt/face.go) -/
 
 /-- smallest MTU management accepts (fix F-17b): strictly more than the largest per-frame
-    overhead `sendPacket` subtracts, so every fragment carries at least one byte -/
+    overhead `sendPacket` reserves (60 with a forwarder PIT token), so every fragment carries payload -/
 def minMtu : Nat := 64
 def maxPacket : Nat := 8800
 
@@ -365,28 +365,28 @@ def sysStep (st : St) (ext : Ext) (routed : Bool) (face : Nat) (name : Name) (p 
   | .panic m => (st', .panic m)
   | r => if (faceGet st'.faces face).isSome then (st', r) else (st', .none)
 
-/-! ### sendPacket MTU arithmetic (fw/face/ndnlp-link-service.go) -/
+/-! ### sendPacket MTU arithmetic (fw/face/ndnlp-link-service.go, after the C10 fixes) -/
 
 inductive SendOutcome
-  | frames (n : Nat)       -- n ≥ 1 frames emitted
-  | dropped
-  | panic
+  | frames (n : Nat)       -- n frames emitted
+  | dropped                -- "DROP": over the MTU without fragmentation, or no room for the header
 deriving DecidableEq, Repr
 
-/-- overhead subtracted from the transport MTU: LpPacket header, Sequence + FragIndex/FragCount when
-    fragmentation is enabled, IncomingFaceId when enabled, PIT token, congestion mark -/
-def overhead (frag inFaceInd hasToken hasMark : Bool) : Nat :=
-  4 + (if frag then 10 + 10 else 0) + (if inFaceInd then 12 else 0) + (if hasToken then 8 else 0) + (if hasMark then 12 else 0)
+/-- bytes every frame of a fragmented packet needs besides its payload: LpPacket TL (4), Fragment
+    TL (4), Sequence (10), FragIndex/FragCount (10); PIT token (2 + length) when attached,
+    IncomingFaceId (12) when enabled, congestion mark (12) -/
+def overhead (tokLen : Nat) (inFaceInd hasMark : Bool) : Nat :=
+  28 + (if tokLen > 0 then 2 + tokLen else 0) + (if inFaceInd then 12 else 0) + (if hasMark then 12 else 0)
 
-def maxOverhead : Nat := overhead true true true true
+/-- the largest overhead with the 6-byte PIT tokens the forwarder attaches -/
+def maxOverhead : Nat := overhead 6 true true
 
-/-- `effectiveMtu ≤ 0` with fragmentation on: integer division by zero / negative `make` -/
-def sendOutcome (mtu : Nat) (frag inFaceInd hasToken hasMark : Bool) (len : Nat) : SendOutcome :=
-  let eff : Int := (mtu : Int) - overhead frag inFaceInd hasToken hasMark
-  if (len : Int) ≤ eff then .frames 1
+/-- `wholeLen` = encoded size of the unfragmented frame (C10's business; an input here) -/
+def sendOutcome (mtu : Nat) (frag : Bool) (tokLen : Nat) (inFaceInd hasMark : Bool) (wholeLen len : Nat) : SendOutcome :=
+  if wholeLen ≤ mtu then .frames 1
   else if !frag then .dropped
-  else if eff ≤ 0 then .panic
-  else .frames ((len + eff.toNat - 1) / eff.toNat)
+  else if mtu ≤ overhead tokLen inFaceInd hasMark then .dropped
+  else .frames ((len + (mtu - overhead tokLen inFaceInd hasMark) - 1) / (mtu - overhead tokLen inFaceInd hasMark))
 
 /-! ### Initial state of a history (the harness world) -/
 
